@@ -30,7 +30,7 @@ ASSUMPTIONS = [
     "masked (documented) differences: model, set-point resolution, supported power controls (away / sleep), intelligent auto fan speed, bypass reporting, per-mode limits (made equal by construction), zone control-method side effect of set-point / damper calls, zone supported power states (AT4 zones advertise turbo support), target temperature of sensorless zones",
     "histories use values expressible in both protocols only",
 ]
-PROBES = ["c19.api_call_compared", "c19.reject_compared", "c19.snapshot_compared", "c19.auto_heat_cool", "c19.multi_ac"]
+PROBES = ["c19.write_fault_on_both", "c19.api_call_compared", "c19.reject_compared", "c19.snapshot_compared", "c19.auto_heat_cool", "c19.multi_ac"]
 MASK_AC = {"target_temperature_resolution", "supported_power_controls"}
 MASK_ZONE = {"target_temperature_resolution", "supported_power_states"}
 
@@ -121,6 +121,7 @@ def generate(rng, index: int, tier: str) -> dict:
         for tl in (tl4, tl5):
             tl.append({"at": 5.9, "op": "console.ignore", "kinds": ["timer_control", "quick_timer"]})
     cur_upd = upd
+    info_faults = []
     for _ in range(n):
         r = rng.random()
         if r < 0.1:
@@ -162,6 +163,12 @@ def generate(rng, index: int, tier: str) -> dict:
                 c["args"]["temperature"] = float(rng.randint(10, 35))
             if c["call"] == "set_power" and c["args"].get("ac_power") in ("SET_TO_AWAY", "SET_TO_SLEEP"):
                 c["args"]["ac_power"] = rng.choice(["TOGGLE", "TURN_ON", "TURN_OFF"])
+            if rng.random() < 0.12:
+                # the write of this command fails on both generations (the peer resets, the client reconnects at once): what
+                # is sent again afterwards - and what is not - belongs to the request's meaning as well
+                for tl in (tl4, tl5):
+                    tl.append({"at": t - 2.0**-10, "op": "net.fail_write", "nth": 1, "err": "EPIPE"})
+                info_faults.append(t)
             for tl in (tl4, tl5):
                 tl.append(dict(copy.deepcopy(c), at=t, op="user.api"))
         for tl in (tl4, tl5):
@@ -169,7 +176,9 @@ def generate(rng, index: int, tier: str) -> dict:
         t += 0.5
     lat = rng.choice([0.0, G.TICK, 2.0**-7])
     mk = lambda gen, inst, tl: {"gen": gen, "mode": "api", "installation": inst, "knobs": {"latency": lat, "seg": {"mode": "whole"}}, "timeline": tl, "end": t + 1.0}  # noqa: E731
-    return {"gen": 45, "s4": mk(4, inst4, tl4), "s5": mk(5, inst5, tl5), "timeline": tl5, "knobs": {}}
+    for tl in (tl4, tl5):
+        tl.sort(key=lambda x: x["at"])
+    return {"gen": 45, "s4": mk(4, inst4, tl4), "s5": mk(5, inst5, tl5), "timeline": tl5, "knobs": {}, "write_faults": info_faults}
 
 
 def _abstract_cmd(gen: int, r: dict):
@@ -257,6 +266,8 @@ def execute(sc: dict) -> dict:
         return res
     if len(sc["s4"]["installation"]["acs"]) > 1:
         probes["c19.multi_ac"] = 1
+    if sc.get("write_faults"):
+        probes["c19.write_fault_on_both"] = 1
     # An AT4 timer command that leaves BOTH timers of the named AC enabled at 00:00 is an all-zero record, which the
     # reference console reads as "AC not named" (spec/undocumented_messages.md): such a command is not expressible in the
     # AT4 wire format, so the timers of that AC leave the comparison from that call on (the command's meaning is still compared).
